@@ -131,7 +131,10 @@ class FakeKernel:
             self.spd[key] = {'policy': p, 'tmpl': msg['attrs'].get(xfrmdec.XFRMA_TMPL, [])}
             return 0
         if t == xfrmdec.FLUSHSA:
-            self.sad.clear()
+            # include/net/xfrm.h xfrm_id_proto_match(): 0 and IPSEC_PROTO_ANY (255) match every IPsec protocol, anything else only itself
+            proto = msg.get('proto', 0)
+            for key in [k for k in self.sad if proto in (0, 255) or k[1] == proto]:
+                del self.sad[key]
             return 0
         if t == xfrmdec.FLUSHPOLICY:
             self.spd.clear()
@@ -243,10 +246,15 @@ def _socket_factory(family, kind, *a):
     return s
 
 
-_sock_shim = types.SimpleNamespace(
-    socket=_socket_factory, AF_INET=_socket.AF_INET, AF_INET6=_socket.AF_INET6, SOCK_DGRAM=_socket.SOCK_DGRAM,
-    SOCK_STREAM=_socket.SOCK_STREAM, SOL_SOCKET=_socket.SOL_SOCKET, SO_REUSEADDR=_socket.SO_REUSEADDR,
-    gaierror=_socket.gaierror)
+class _SockShim:
+    """Stands in for the `socket` module inside ikesacontroller: only socket() is replaced, every other name is the real module's."""
+    socket = staticmethod(_socket_factory)
+
+    def __getattr__(self, name):
+        return getattr(_socket, name)
+
+
+_sock_shim = _SockShim()
 
 
 def _select_shim(rlist, wlist, xlist, timeout=None):
@@ -462,11 +470,13 @@ class Endpoint:
         self.sendto_calls = 0
         self.sendto_faults = {}
 
-    def restart(self):
-        """Drop the controller (crash) and build a new one on the same kernel."""
+    def restart(self, confdict=None):
+        """Drop the controller (crash) and build a new one on the same kernel (optionally with an edited configuration)."""
         prev, W.cur = W.cur, self
         try:
             self.step_nl = []
+            if confdict is not None:
+                self.confdict = confdict
             self.conf = r_conf.Configuration(self.addrs, self.confdict)
             self.ctl = r_ctl.IkeSaController(self.addrs, self.conf)
             self.boot_nl = self.step_nl
